@@ -39,7 +39,7 @@ def findings():
 
 def seeded():
     out = ["## 7. Seeded changes: which checks catch which", "",
-           f"{len(glob.glob(os.path.join(ROOT, 'seeded', '*', 'meta.json')))} changes, in waves (A/B, then C/D, then E/F per property; each later wave was",
+           f"{len(glob.glob(os.path.join(ROOT, 'seeded', '*', 'meta.json')))} changes, in waves (A/B, C/D, E/F, G/H, I/J, and in round 7 K/L for every property plus M for six; waves C–J were",
            "told what the earlier ones had done and asked for different mechanisms), written by fresh sub-agents that saw only",
            "the text of one property and a scratch worktree (nothing",
            "from /verif). Each breaks its property, compiles, passes the repository's tests, needs something specific to",
